@@ -59,6 +59,15 @@ func (e *tqEnv) field(q string, nsv bool, inst [][2]int, multi [][]int) (string,
 	if _, err := e.m.API.CreateField(context.Background(), e.index, name, pilosa.OptFieldTypeTime(pilosa.TimeQuantum(q), nsv)); err != nil {
 		return "", err
 	}
+	if nsv {
+		// the second write path: ONE Field.Import batch holding every bit, ordered so that entries
+		// which agree in all units of the quantum (but differ in a coarser unit) are neighbours
+		if err := e.importBatch(name, q, inst, multi); err != nil {
+			return "", err
+		}
+		e.loaded[name] = inst
+		return name, nil
+	}
 	var sb strings.Builder
 	for i, in := range inst {
 		ts := pqlTime(stamp(in[0], in[1], behav.Hash64(fmt.Sprintf("%s/%d/%d", name, i, e.seed))))
@@ -94,6 +103,62 @@ func (e *tqEnv) field(q string, nsv bool, inst [][2]int, multi [][]int) (string,
 	}
 	e.loaded[name] = inst
 	return name, nil
+}
+
+type impEntry struct {
+	row, col uint64
+	ts       time.Time
+	key      string
+}
+
+func (e *tqEnv) importBatch(name, q string, inst [][2]int, multi [][]int) error {
+	var ents []impEntry
+	add := func(row, col uint64, in [2]int, tag string) {
+		ts := stamp(in[0], in[1], behav.Hash64(fmt.Sprintf("%s/%s/%d", name, tag, e.seed)))
+		key := ""
+		for _, u := range q { // the units of the quantum, nothing coarser
+			switch u {
+			case 'Y':
+				key += ts.Format("2006")
+			case 'M':
+				key += ts.Format("01")
+			case 'D':
+				key += ts.Format("02")
+			case 'H':
+				key += ts.Format("15")
+			}
+		}
+		ents = append(ents, impEntry{row, col, ts, key})
+	}
+	for i, in := range inst {
+		add(0, tqCol(i), in, fmt.Sprint(i))
+		add(uint64(1+i), tqCol(i), in, fmt.Sprint(i))
+	}
+	for m, set := range multi {
+		for _, i1 := range set {
+			add(0, tqCol(len(inst)+m), inst[i1-1], fmt.Sprintf("m%d/%d", m, i1))
+		}
+	}
+	sort.SliceStable(ents, func(a, b int) bool {
+		if ents[a].key != ents[b].key {
+			return ents[a].key < ents[b].key
+		}
+		return ents[a].ts.Before(ents[b].ts)
+	})
+	fld, err := e.m.API.Field(context.Background(), e.index, name)
+	if err != nil {
+		return err
+	}
+	rows, cols, tss := make([]uint64, len(ents)), make([]uint64, len(ents)), make([]*time.Time, len(ents))
+	for i := range ents {
+		rows[i], cols[i] = ents[i].row, ents[i].col
+		t := ents[i].ts
+		tss[i] = &t
+	}
+	if err := fld.Import(rows, cols, tss); err != nil {
+		return fmt.Errorf("importing %s: %v", name, err)
+	}
+	return nil
 }
 
 type tqCase struct {
